@@ -238,51 +238,115 @@ theorem c09_restart_resets (mode : Mode) (rt rt' : Runtime) (h : restart mode rt
 
 /-! ## Power cycle with a retain store (save, new process, load) -/
 
-/-- **Power-cycle clause, partial (guard: the variable is a GLOBAL).**  Save on runtime `rt`, then
-load into ANY runtime `fr` with the same global declarations (the newly built process): every
-RETAIN/PERSISTENT global whose saved value is retainable gets the saved value — the set a warm
-restart keeps (`c09_warm_globals_kept`) — and every other global keeps what the new process
+/-- **Save clause: what `Ok` means.**  `save_retain_store` on a runtime whose manager is
+consistent with the medium (`MgrConsistent`: what it remembers as written is the file — true after
+`set_retain_store` and preserved by every save, see `c09_save_sequence`): if the call returns
+`Ok`, the medium holds the snapshot of the state at that call — written now, or skipped because
+the remembered (= stored) snapshot equals it under the manager's `==` — and consistency is kept. -/
+theorem c09_save_ok_store (rt rt' : Runtime) (m : RetainMgr) (disk disk' : Disk)
+    (hm : rt.retain = some m) (hc : MgrConsistent m disk)
+    (h : saveRetainStore rt disk = (rt', disk', none)) :
+    HoldsUpToEq disk' (retainSnapshot rt) ∧
+    ∃ m', rt'.retain = some m' ∧ MgrConsistent m' disk' := by
+  unfold saveRetainStore at h
+  rw [hm] at h
+  simp only at h
+  cases hr : m.saveSnapshot (retainSnapshot rt) rt.time disk with
+  | mk m' r =>
+    obtain ⟨d', res⟩ := r
+    rw [hr] at h
+    simp only [Prod.mk.injEq] at h
+    obtain ⟨h1, h2, h3⟩ := h
+    subst h1; subst h2; subst h3
+    obtain ⟨a, b⟩ := saveSnapshot_ok m m' _ _ disk d' hc hr
+    exact ⟨a, m', rfl, b⟩
+
+/-- **Save clause: a failed write changes nothing.**  If `save_retain_store` returns an error
+(the medium rejected the write), neither the medium nor the manager's memory of what was written
+(`last_snapshot`, `dirty`, `last_save`) moves — so the next save of the same values writes. -/
+theorem c09_save_failure_changes_nothing (rt rt' : Runtime) (disk disk' : Disk) (e : Err)
+    (h : saveRetainStore rt disk = (rt', disk', some e)) : rt' = rt ∧ disk' = disk := by
+  unfold saveRetainStore at h
+  cases hm : rt.retain with
+  | none => rw [hm] at h; simp at h
+  | some m =>
+    rw [hm] at h
+    simp only at h
+    cases hr : m.saveSnapshot (retainSnapshot rt) rt.time disk with
+    | mk m' r =>
+      obtain ⟨d', res⟩ := r
+      rw [hr] at h
+      simp only [Prod.mk.injEq] at h
+      obtain ⟨h1, h2, h3⟩ := h
+      subst h3
+      obtain ⟨a, b, _⟩ := saveSnapshot_err m m' _ _ disk d' e hr
+      subst a; subst b
+      exact ⟨by rw [← h1, ← hm], h2.symm⟩
+
+/-- **Save clause over histories.**  Start from any consistent manager/medium pair (in particular
+right after `set_retain_store`) and run ANY sequence of save calls — arbitrary retained values,
+clock values, and an arbitrary pattern of failing and succeeding writes.  Afterwards the pair is
+still consistent, and if the LAST call returned `Ok` the medium holds the snapshot passed to that
+call (up to the manager's `==`). -/
+theorem c09_save_sequence (calls : List SaveCall) (m : RetainMgr) (d : Disk)
+    (hc : MgrConsistent m d) :
+    MgrConsistent (runSaves m d calls).1 (runSaves m d calls).2.1 ∧
+    ∀ c, calls.getLast? = some c → (runSaves m d calls).2.2 = some none →
+      HoldsUpToEq (runSaves m d calls).2.1 c.snap :=
+  runSaves_spec calls m d hc
+
+/-- **Regression witness (a failed write must not be remembered as written).**  Witness 8: two
+cycles, the medium rejects the save (`RetainStore` error), recovers, and the retry with the SAME
+retained values returns `Ok` and the medium holds `gr = 2`.  (The harness replays this as cases 7
+and 8 with a retain directory that appears later and with a scripted store.) -/
+theorem c09_witness_failed_write_retried :
+    W.failRetry8 = some (some .retainStore, none, some 2) := by decide
+
+/-- **Power-cycle clause, partial (guard: the variable is a GLOBAL).**  The medium holds `f`,
+entry-wise equal to the snapshot of runtime `rt` (what `c09_save_ok_store` provides after an `Ok`
+save).  Load into ANY runtime `fr` with the same global declarations (the newly built process):
+every RETAIN/PERSISTENT global whose saved value is retainable gets the saved value — the set a
+warm restart keeps (`c09_warm_globals_kept`) — and every other global keeps what the new process
 initialised it to. -/
-theorem c09_power_cycle_globals_partial (rt fr : Runtime) (disk : Disk)
-    (hstore : rt.retain.isSome) (hstore' : fr.retain.isSome)
+theorem c09_power_cycle_globals_partial (rt fr : Runtime) (disk : Disk) (f : Snapshot)
+    (hfile : disk.file = some f) (hnf : (keys f).Nodup)
+    (hext : ∀ n, aget f n = aget (retainSnapshot rt) n) (hstore' : fr.retain.isSome)
     (hmeta : fr.globalsMeta = rt.globalsMeta) (hnd : (rt.globalsMeta.map (·.name)).Nodup)
     (m : GlobalMeta) (hm : m ∈ rt.globalsMeta) :
-    (loadRetainStore fr (saveRetainStore rt disk)).storage.getGlobal m.name =
+    (loadRetainStore fr disk).storage.getGlobal m.name =
       match (if retainOnWarm m.retain then (rt.storage.getGlobal m.name).filter Val.retainable
              else none) with
       | some v => some v
       | none => fr.storage.getGlobal m.name := by
-  cases hr : rt.retain with
-  | none => simp [hr] at hstore
-  | some cfg =>
-    cases hr' : fr.retain with
-    | none => simp [hr'] at hstore'
-    | some cfg' =>
-      simp only [saveRetainStore, hr, loadRetainStore, hr', applyRetainSnapshot, retainSnapshot]
-      rw [applySnapshotAux_spec _ _ _ _ (keys_retainSnapshotAux_nodup _ _ _ (by simp [keys]))]
-      rw [aget_retainSnapshotAux, hmeta, findMeta_of_mem _ hnd m hm]
-      by_cases hret : retainOnWarm m.retain = true
-      · rw [snapVal_of_mem _ _ m hm hret]
-        simp only [hret, if_true]
-        cases hg : rt.storage.getGlobal m.name with
-        | none => simp [Option.filter, aget]
-        | some v =>
-          by_cases hv : v.retainable = true
-          · simp [Option.filter, hv]
-          · simp [Option.filter, hv, aget]
-      · have hret' : retainOnWarm m.retain = false := by simpa using hret
-        have hs : snapVal rt.storage rt.globalsMeta m.name = none := by
-          unfold snapVal
-          split
-          · rename_i hany
-            rw [List.any_eq_true] at hany
-            obtain ⟨x, hx, hxx⟩ := hany
-            simp only [Bool.and_eq_true, beq_iff_eq] at hxx
-            have : x = m := nodup_map_inj (·.name) _ hnd x m hx hm hxx.1
-            subst this
-            rw [hret'] at hxx; simp at hxx
-          · rfl
-        simp [hs, hret', aget]
+  cases hr' : fr.retain with
+  | none => simp [hr'] at hstore'
+  | some cfg' =>
+    simp only [loadRetainStore, hr', hfile, applyRetainSnapshot]
+    rw [applySnapshotAux_spec _ _ _ _ hnf, hext]
+    simp only [retainSnapshot]
+    rw [aget_retainSnapshotAux, hmeta, findMeta_of_mem _ hnd m hm]
+    by_cases hret : retainOnWarm m.retain = true
+    · rw [snapVal_of_mem _ _ m hm hret]
+      simp only [hret, if_true]
+      cases hg : rt.storage.getGlobal m.name with
+      | none => simp [Option.filter, aget]
+      | some v =>
+        by_cases hv : v.retainable = true
+        · simp [Option.filter, hv]
+        · simp [Option.filter, hv, aget]
+    · have hret' : retainOnWarm m.retain = false := by simpa using hret
+      have hs : snapVal rt.storage rt.globalsMeta m.name = none := by
+        unfold snapVal
+        split
+        · rename_i hany
+          rw [List.any_eq_true] at hany
+          obtain ⟨x, hx, hxx⟩ := hany
+          simp only [Bool.and_eq_true, beq_iff_eq] at hxx
+          have : x = m := nodup_map_inj (·.name) _ hnd x m hx hm hxx.1
+          subst this
+          rw [hret'] at hxx; simp at hxx
+        · rfl
+      simp [hs, hret', aget]
 
 /-- **Power-cycle clause, counterexample (program-level RETAIN).**  Witness 3: `r` is a
 program-level RETAIN variable, `gr` a RETAIN global, both incremented twice.  A warm restart keeps
@@ -293,17 +357,19 @@ theorem c09_counterexample_power_cycle :
 
 /-! ## Warm restart followed by `load_retain_store` (the resource loop's restart step) -/
 
-/-- **Warm restart + load, partial (guard: the store was saved from the very state that is
-restarted).**  `scheduler.rs` and `TestHarness::restart_with_retain` run `restart(mode)` and then
-`load_retain_store()`.  If the file holds the snapshot of `rt` itself, the load after
-`restart(Warm)` changes no declared global: the warm clause survives the reload. -/
-theorem c09_warm_restart_load_partial (rt rt' : Runtime) (disk : Disk) (hwf : WF rt)
+/-- **Warm restart + load, partial (guard: the medium holds the snapshot of the very state that
+is restarted).**  `scheduler.rs` and `TestHarness::restart_with_retain` run `restart(mode)` and
+then `load_retain_store()`.  If the medium holds `f`, entry-wise the snapshot of `rt` itself (an
+`Ok` save right before, `c09_save_ok_store`), the load after `restart(Warm)` changes no declared
+global: the warm clause survives the reload. -/
+theorem c09_warm_restart_load_partial (rt rt' : Runtime) (disk : Disk) (f : Snapshot) (hwf : WF rt)
     (h : restart .warm rt = .ok rt') (hstore : rt.retain.isSome)
+    (hfile : disk.file = some f) (hnf : (keys f).Nodup)
+    (hext : ∀ n, aget f n = aget (retainSnapshot rt) n)
     (m : GlobalMeta) (hm : m ∈ rt.globalsMeta) :
-    (loadRetainStore rt' (saveRetainStore rt disk)).storage.getGlobal m.name =
-      rt'.storage.getGlobal m.name := by
+    (loadRetainStore rt' disk).storage.getGlobal m.name = rt'.storage.getGlobal m.name := by
   obtain ⟨_, _, _, _, _, hmeta, _, _, _, _, _, hret, _⟩ := c09_restart_resets .warm rt rt' h
-  rw [c09_power_cycle_globals_partial rt rt' disk hstore (by rw [hret]; exact hstore) hmeta
+  rw [c09_power_cycle_globals_partial rt rt' disk f hfile hnf hext (by rw [hret]; exact hstore) hmeta
     hwf.globalsNodup m hm]
   by_cases hr : retainOnWarm m.retain = true
   · simp only [hr, if_true]
